@@ -319,12 +319,12 @@ Proof.
   destruct (0 <=? d) eqn:E.
   - destruct (Z_le_dec d 2147483631).
     + rewrite m_round_pad32_some by (unfold i32; lia). cbn [obind]. split; [lia|discriminate].
-    + rewrite Hpad by (unfold i32; lia). cbn [obind]. split; [intros Hnn; exfalso; apply Hnn; reflexivity|lia].
+    + rewrite Hpad by (unfold i32; lia). clear Hpad. cbn [obind]. split; [intros Hnn; exfalso; apply Hnn; reflexivity|lia].
   - unfold neg32. chk32 (- d).
     + unfold i32 in *. destruct (Z_le_dec (- d) 2147483631).
       * rewrite m_round_pad32_some by (unfold i32; lia). cbn [obind].
         rewrite chk_s32_some by (unfold i32; lia). cbn [obind]. split; [lia|discriminate].
-      * rewrite Hpad by (unfold i32; lia). cbn [obind]. split; [intros Hnn; exfalso; apply Hnn; reflexivity|lia].
+      * rewrite Hpad by (unfold i32; lia). clear Hpad. cbn [obind]. split; [intros Hnn; exfalso; apply Hnn; reflexivity|lia].
     + split; [intros Hnn; exfalso; apply Hnn; reflexivity|unfold i32 in *; lia].
 Qed.
 
